@@ -84,6 +84,48 @@ mod thin_enum {
     impl NonFungibleBurnable for EnumNft {}
 }
 
+mod thin_cons {
+    //! Consecutive with nothing overridden: every NonFungibleToken / burnable entry point is the trait's default,
+    //! i.e. goes through `impl ContractOverrides for Consecutive` (the example spells its entry points out)
+    use soroban_sdk::{contract, contractimpl, contracttype, Address, Env, String};
+    use stellar_tokens::non_fungible::{
+        burnable::NonFungibleBurnable,
+        consecutive::{Consecutive, NonFungibleConsecutive},
+        Base, NonFungibleToken,
+    };
+
+    #[contracttype]
+    pub enum DataKey {
+        Owner,
+    }
+
+    #[contract]
+    pub struct ConsNft;
+
+    #[contractimpl]
+    impl ConsNft {
+        pub fn __constructor(e: &Env, uri: String, name: String, symbol: String, owner: Address) {
+            e.storage().instance().set(&DataKey::Owner, &owner);
+            Base::set_metadata(e, uri, name, symbol);
+        }
+        pub fn batch_mint(e: &Env, to: Address, amount: u32) -> u32 {
+            let owner: Address = e.storage().instance().get(&DataKey::Owner).expect("owner should be set");
+            owner.require_auth();
+            Consecutive::batch_mint(e, &to, amount)
+        }
+    }
+
+    #[contractimpl(contracttrait)]
+    impl NonFungibleToken for ConsNft {
+        type ContractType = Consecutive;
+    }
+
+    impl NonFungibleConsecutive for ConsNft {}
+
+    #[contractimpl(contracttrait)]
+    impl NonFungibleBurnable for ConsNft {}
+}
+
 const ACCTS: [&str; 4] = ["a", "b", "c", "d"];
 const NOW0: u32 = 10;
 const MAX_TTL: u32 = 6_000_000;
@@ -136,6 +178,9 @@ impl Sys {
             ("consecutive", "example") => {
                 e.register(ex_cons::ExampleContract, (st("https://x/"), st("n"), st("s"), admin.clone()))
             }
+            ("consecutive", "thin") => {
+                e.register(thin_cons::ConsNft, (st("https://x/"), st("n"), st("s"), admin.clone()))
+            }
             _ => panic!("flavour {fl}/{imp}"),
         };
         let sys = Sys {
@@ -172,6 +217,12 @@ impl Sys {
         match self.real(id) {
             Some(rid) => self.names.opt_name(&self.get::<Address>("owner_of", args(&self.e, (rid,)))),
             None => "none".into(),
+        }
+    }
+    fn has_uri(&self, id: u32) -> &'static str {
+        match self.real(id) {
+            Some(rid) if self.get::<SStr>("token_uri", args(&self.e, (rid,))).is_some() => "ok",
+            _ => "fail",
         }
     }
     fn balance(&self, a: &str) -> i64 {
@@ -229,7 +280,7 @@ impl Sys {
     fn obs(&self) -> Value {
         no_auth(&self.e);
         let ids = self.obs_ids();
-        let owners: Vec<Value> = ids.iter().map(|&i| json!({"id": i, "o": self.owner_of(i)})).collect();
+        let owners: Vec<Value> = ids.iter().map(|&i| json!({"id": i, "o": self.owner_of(i), "u": self.has_uri(i)})).collect();
         let appr: Vec<Value> = ids.iter().map(|&i| json!({"id": i, "who": self.approved(i)})).collect();
         let mut bal = JMap::new();
         let mut opall = JMap::new();
@@ -558,7 +609,7 @@ fn main() {
     match cli() {
         Mode::Exec { input, output } => {
             let mut t = Trace::create(&output);
-            for b in read_behaviours(&input) {
+            for (bi, b) in read_behaviours(&input).iter().enumerate() {
                 if b.ops.is_empty() {
                     continue;
                 }
@@ -581,8 +632,10 @@ fn main() {
                             run_ops(&mut t, "enumerable", imp, 16, &b.ops)
                         }
                         "consecutive" => {
+                            // model geometry on the example, real bucket geometry alternately on the example and
+                            // on the contract with nothing overridden
                             run_ops(&mut t, "consecutive", "example", 16, &b.ops);
-                            run_ops(&mut t, "consecutive", "example", 16, &remap(&b.ops));
+                            run_ops(&mut t, "consecutive", if bi % 2 == 1 { "thin" } else { "example" }, 16, &remap(&b.ops));
                         }
                         f => panic!("flavour {f}"),
                     },
@@ -598,11 +651,12 @@ fn main() {
                     0 => ("base", "thin"),
                     1 => ("enumerable", "example"),
                     2 => ("enumerable", "thin"),
+                    3 => ("consecutive", "thin"),
                     _ => ("consecutive", "example"),
                 };
                 let min_temp = if r.gen_bool(0.5) { 1 } else { 16 };
                 // "high" runs of the examples: the id counter starts a few ids (or a batch or two) below u32::MAX
-                let base = if imp == "example" && (run / 5) % 3 == 2 { u32::MAX - *pick(&mut r, &[15u32, 100, 5000, 40_000]) } else { 0 };
+                let base = if (imp == "example" || fl == "consecutive") && (run / 5) % 3 == 2 { u32::MAX - *pick(&mut r, &[15u32, 100, 5000, 40_000]) } else { 0 };
                 let mut sys = Sys::new(fl, imp, min_temp, base);
                 t.reset(sys.reset_event());
                 let mut xid: u32 = 1_000_000 + r.gen_range(0..1000);
